@@ -114,7 +114,25 @@ def run(ck, fb, fbd):
                 body_ops.append((a[2], unwrap(strip_casts(a[0])), unwrap(strip_casts(a[1])), b))
         if scalar:
             nsc += 1
-            ok = len(body_ops) == 1 and body_ops[0][0] == op and isinstance(body_ops[0][2], dict) and body_ops[0][2].get("k") == "var" and body_ops[0][2].get("id") == p["id"]
+            # the operand of `e op= s` is the parameter's VALUE: the parameter itself when it is passed by value, otherwise a local
+            # copy of it made before the loop - a reference parameter may alias a component of this vector (v /= v[0], F67)
+            opnd = body_ops[0][2] if len(body_ops) == 1 and isinstance(body_ops[0][2], dict) else {}
+            by_value = not p["t"].rstrip().endswith("&")
+            copy_of_param = False
+            if opnd.get("k") == "var" and opnd.get("id") != p["id"]:
+                for bb, ii, d in f.nodes(("decl",)):
+                    for v_ in d["vars"]:
+                        if v_.get("id") == opnd.get("id") and v_.get("init") is not None and not v_.get("isref") and not v_.get("t", "").rstrip().endswith("&"):
+                            iv = unwrap(strip_casts(f.resolve(v_["init"])))
+                            while isinstance(iv, dict) and iv.get("k") == "ctor" and len(iv.get("a", [])) == 1:
+                                iv = unwrap(strip_casts(iv["a"][0]))
+                            if isinstance(iv, dict) and iv.get("k") == "var" and iv.get("id") == p["id"]:
+                                copy_of_param = True
+            direct = opnd.get("k") == "var" and opnd.get("id") == p["id"]
+            ok = len(body_ops) == 1 and body_ops[0][0] == op and ((direct and by_value) or copy_of_param)
+            if len(body_ops) == 1 and body_ops[0][0] == op and direct and not by_value:
+                ck.violate("C19.compwise", f.where, "%s::operator%s(scalar) applies the VALUE of its operand to every component: the operand is a reference parameter used inside the loop, and it may refer to a component of this vector (v %s v[0] changes the operand after the first component)" % (f.cls.replace("OpenVolumeMesh::Geometry::", ""), op, op), "C19.compwise:scalar%s:alias" % op)
+                continue
             loops = f.loops()
             rng = ""
             if loops:
@@ -253,6 +271,33 @@ def run(ck, fb, fbd):
               (ck.ok if (okodd and mainside) else lambda r, w, t: ck.violate(r, w, t, "C19.geom:normal:sides"))("C19.geom", f.where, "normal(hf): the formula is evaluated for one side of the face only and the other side returns the negated normal of its opposite (odd-side return %s, formula restricted to the even side %s)" % (okodd, mainside))
             (ck.ok if ok else lambda r, w, t: ck.violate(r, w, t, "C19.geom:normal"))("C19.geom", f.where, "normal(hf) = ((p2-p1) x (p3-p2)).normalized() with p1,p2 the ends of the first and p3 the end of the second halfedge of the halfface (%s)" % why)
     ck.floor("geometry_queries", ng, 12)
+    # length(): the Euclidean length of an edge with integer end points is not an integer - on the integer instantiation
+    # (tu/inst_all.cc) the result type must be a floating type (F69)
+    lens = [f for f in fb.fns.values() if f.name == "length" and f.cls and f.cls.startswith("OpenVolumeMesh::GeometryKernel<") and "VectorT<int" in f.cls and f.has_cfg]
+    if not lens:
+        raise AnalysisBroken("C19.geom: no instantiation of GeometryKernel<Vec3i, ...>::length (tu/inst_all.cc)")
+    for f in lens:
+        rt = (f.d.get("ret") or "").replace("const ", "")
+        ok = rt in ("double", "float", "long double")
+        (ck.ok if ok else lambda r, w, t: ck.violate(r, w, t, "C19.geom:length:type"))("C19.geom", f.where, "length(%s) on integer positions returns a floating type (%s)" % (f.d["params"][0]["t"].split("::")[-1], rt))
+    # compile witness: l1_norm()/mean_abs() are members of unsigned vectors as well
+    import subprocess
+    from .witness import SRC, GEN, VERIF
+    import os
+    wsrc = os.path.join(VERIF, "witness", "c19_unsigned.cc")
+    pr = subprocess.run(["clang++", "-fsyntax-only", "-std=gnu++17", "-DNDEBUG", "-I" + SRC, "-I" + GEN, wsrc], stdout=subprocess.PIPE, stderr=subprocess.STDOUT, text=True)
+    errs = [l_ for l_ in pr.stdout.splitlines() if " error: " in l_]
+    if pr.returncode != 0 and not errs:
+        raise AnalysisBroken("witness c19_unsigned.cc: clang++ failed without an error message")
+    (ck.ok if pr.returncode == 0 else lambda r, w, t: ck.violate(r, w, t, "C19.l1:unsigned"))("C19.l1", "witness/c19_unsigned.cc", "l1_norm() and mean_abs() compile for unsigned vectors%s" % ("" if pr.returncode == 0 else " - " + errs[0].split(" error: ")[-1][:120]))
+    # the absolute-value helper of the norms: |x| for signed and floating scalars, the identity for unsigned ones (F68)
+    av = [f for f in vec_fns(fb, name="abs_value")]
+    for f in av:
+        from .canon import Canon
+        r_ = [Canon(f).s(x.get("x")) for b, i, x in f.tops() if x.get("k") == "ret" and b in f.reach()]
+        unsigned_ = "unsigned" in f.cls
+        ok = r_ == (["P0"] if unsigned_ else ["abs(P0)"])
+        (ck.ok if ok else lambda r, w, t: ck.violate(r, w, t, "C19.l1:abs_value"))("C19.l1", f.where, "%s::abs_value returns %s (found %s)" % (f.cls.replace("OpenVolumeMesh::Geometry::", ""), "its argument" if unsigned_ else "abs(x)", r_))
 
 
 def norm_and_apply(ck, fb):
@@ -273,7 +318,7 @@ def norm_and_apply(ck, fb):
             if lam:
                 lrets = [x for b, i, x in lam[0].tops() if x.get("k") == "ret"]
                 ls = Canon(lam[0]).s(lrets[0].get("x")) if len(lrets) == 1 else ""
-            absform = bool(re.fullmatch(r"\(?accumulate\(\(?values_\.cbegin\(\) \+ 1\)?, values_\.cend\(\), abs\(values_\[0\]\), \[lambda@\d+\]\)( / (\([a-z ]+\))?\d+)?\)?", s)) and ls in ("(P0 + abs(P1))", "(abs(P1) + P0)")
+            absform = bool(re.fullmatch(r"\(?accumulate\(\(?values_\.cbegin\(\) \+ 1\)?, values_\.cend\(\), (?:abs|abs_value)\(values_\[0\]\), \[lambda@\d+\]\)( / (\([a-z ]+\))?\d+)?\)?", s)) and ls in ("(P0 + abs(P1))", "(abs(P1) + P0)", "(P0 + abs_value(P1))", "(abs_value(P1) + P0)")
             plain = bool(re.fullmatch(r"\(?accumulate\(\(?values_\.cbegin\(\) \+ 1\)?, values_\.cend\(\), values_\[0\]\)( / (\([a-z ]+\))?\d+)?\)?", s))
             divided = " / " in s
             if name == "l1_norm":
